@@ -126,6 +126,12 @@ impl Cache {
         self.procs.remove(pid);
     }
 
+    #[cfg(feature = "verif")]
+    pub fn verif_uncache(&self, pid: &str) {
+        self.procs.remove(pid);
+        self.procs.run_pending_tasks();
+    }
+
     fn get_proc(&self, pid: &str) -> Option<Arc<Process>> {
         self.procs.get(pid)
     }
